@@ -245,6 +245,13 @@ class DRYRule(BaseLintRule):  # pylint: disable=too-many-instance-attributes
         self._helpers.inline_ignore.clear()
         self._constants = []
         self._file_contents = {}
+        # Reset collected blocks so a reused rule instance judges the next run on its own files only
+        self._storage.close()
+        self._storage = None
+        self._file_analyzer = None
+        self._config = None
+        self._project_root = None
+        self._initialized = False
         return violations
 
 
